@@ -2,6 +2,7 @@ package jschema
 
 import (
 	"github.com/jsightapi/jsight-schema-core/zzverif"
+	"github.com/jsightapi/jsight-schema-core/zzverif/zzjson"
 )
 
 type hResult struct {
@@ -35,6 +36,9 @@ func hTexts() []string {
 		`{"a": 1, "b": [` + d1 + `, 2`, // fails after the root node and a nested array exist
 		"# only a comment " + s,        // a schema without a root value
 		hLongArray(d2),                 // an example longer than the pooled buffers' initial size
+		"{\n  \"k\": " + d1 + ",\n  \"a\": {} // {or: [{type: \"object\"}, {type: \"string\"}]}\n}", // passes Check(); Example() fails inside a nested member
+		"{\n  \"a\": " + d1 + " // {min: 99}\n}",                                                         // fails after the load, in the checker
+		`{"m": @missing, "n": [` + d2 + `]}`,                                                                // fails after the load: unknown type
 	}
 }
 
@@ -111,6 +115,11 @@ func VerifC10_History() {
 	for i := range got {
 		if got[i].op == hExample {
 			zzverif.Assert(string(got[i].bytes) == got[i].copyB, "returned bytes are unchanged by later calls")
+			if got[i].errCode == 0 {
+				// independent of any reference run in the same process
+				_, isJSON := zzjson.Decode(got[i].bytes)
+				zzverif.Assert(isJSON, "a returned example is RFC 8259 JSON whatever was processed before")
+			}
 		}
 		zzverif.Assert(vSameStrings(got[i].strs, got[i].copyS), "returned lists are unchanged by later calls")
 	}
@@ -120,4 +129,40 @@ func VerifC10_History() {
 		zzverif.Assert(hSameResult(got[i], ref[i]), "the result does not depend on what was processed before")
 	}
 	zzverif.Reach("reused-buffer")
+}
+
+// VerifC10_RejectedAddType: an AddType call that is refused (name already
+// taken, or not a type name) leaves no trace: the registered type is still the
+// first one everywhere a caller can see it, and every result equals the result
+// of an object that never saw the refused call.
+func VerifC10_RejectedAddType() {
+	zzverif.Expect("refused")
+	d := string([]byte{zzverif.Digit("d")})
+	rootText := []string{`{"r": @t, "n": ` + d + `}`, "{ // {allOf: \"@t\"}\n  \"own\": " + d + "\n}", `@t`}[zzverif.IntRange("root", 0, 2)]
+	first := `{"a": ` + d + `}`
+	second := []string{`{"b": "x"}`, `"s"`, `{"a": ` + d}[zzverif.IntRange("second", 0, 2)]
+	name := []string{"@t", "t", "@"}[zzverif.IntRange("name", 0, 2)]
+	mk := func() (*JSchema, *JSchema) {
+		s := New("root", rootText)
+		a := New("@t", first)
+		zzverif.Assert(s.AddType("@t", a) == nil, "a valid type can be registered")
+		return s, a
+	}
+	ref, _ := mk()
+	s, a := mk()
+	b := New(name, second)
+	err := s.AddType(name, b)
+	zzverif.Assert(err != nil, "a second type under a taken or invalid name is refused")
+	zzverif.Reach("refused")
+	got, ok := s.UserTypeCollection["@t"]
+	zzverif.Assert(ok && got == a, "the collection still holds the accepted type")
+	if name != "@t" {
+		_, leaked := s.UserTypeCollection[name]
+		zzverif.Assert(!leaked, "a refused name does not appear in the collection")
+	}
+	zzverif.Assert(len(s.UserTypeCollection) == 1, "the collection has exactly the accepted type")
+	zzverif.Assert(vErrCode(s.Check()) == vErrCode(ref.Check()), "Check() is not affected by the refused call")
+	x1, e1 := s.Example()
+	x2, e2 := ref.Example()
+	zzverif.Assert(string(x1) == string(x2) && vErrCode(e1) == vErrCode(e2), "Example() is not affected by the refused call")
 }
